@@ -213,3 +213,88 @@ MUTATIONS += [
       replace="            let unskipped_field_name_strings: Vec<String> = fields.iter().map(|f| f.name.to_string()).collect();\n            let unskipped_field_types: Vec<syn::Type> = fields.iter().map(|f| f.field_type().clone()).collect();\n            quote! {\n                sbor::TypeData::struct_with_named_fields(\n                    #type_name,\n                    sbor::rust::vec![\n                        #((#unskipped_field_name_strings, <#unskipped_field_types as sbor::Describe<#custom_type_kind_generic>>::TYPE_ID),)*",
       expect=["arity|radix_transactions::model::v1::manifest_v1::TransactionManifestV1"]),
 ]
+# ---- behaviour-preserving refactors: the checks must stay SILENT on these (benign=True)
+MUTATIONS += [
+ dict(name="benign-c20-read-size-unrolled-correctly", props=["C20"], benign=True, file="sbor/src/decoder.rs",
+      find="""        let mut size = 0usize;
+        let mut shift = 0;
+        let mut byte;
+        loop {
+            byte = self.read_byte()?;
+            size |= ((byte & 0x7F) as usize) << shift;
+            if byte < 0x80 {
+                break;
+            }
+            shift += 7;
+            if shift >= 28 {
+                return Err(DecodeError::InvalidSize);
+            }
+        }
+
+        // The last byte should not be zero, unless the size is zero
+        if byte == 0 && shift != 0 {
+            return Err(DecodeError::InvalidSize);
+        }
+
+        Ok(size)
+""",
+      replace="""        let mut size = 0usize;
+        for shift in [0, 7, 14] {
+            let byte = self.read_byte()?;
+            size |= ((byte & 0x7F) as usize) << shift;
+            if byte < 0x80 {
+                if byte == 0 && shift != 0 {
+                    return Err(DecodeError::InvalidSize);
+                }
+                return Ok(size);
+            }
+        }
+        let byte = self.read_byte()?;
+        if byte >= 0x80 || byte == 0 {
+            return Err(DecodeError::InvalidSize);
+        }
+        Ok(size | ((byte as usize) << 21))
+"""),
+ dict(name="benign-c06-deduction-extracted-into-helper", props=["C06"], benign=True, file="radix-engine/src/system/system_modules/costing/fee_reserve.rs",
+      find="""    fn consume_finalization_internal(&mut self, cost_units: u32) -> Result<(), FeeReserveError> {
+        self.check_finalization_cost_unit_limit(cost_units)?;
+
+        let amount = self
+            .effective_finalization_cost_unit_price
+            .checked_mul(cost_units)
+            .ok_or(FeeReserveError::Overflow)?;
+        if self.xrd_balance < amount {
+            Err(FeeReserveError::InsufficientBalance {
+                required: amount,
+                remaining: self.xrd_balance,
+            })
+        } else {
+            self.xrd_balance -= amount;
+            self.finalization_cost_units_committed += cost_units;
+            Ok(())
+        }
+    }
+""",
+      replace="""    fn deduct_cost_units(&mut self, cost_unit_price: Decimal, cost_units: u32) -> Result<(), FeeReserveError> {
+        let amount = cost_unit_price
+            .checked_mul(cost_units)
+            .ok_or(FeeReserveError::Overflow)?;
+        if self.xrd_balance < amount {
+            Err(FeeReserveError::InsufficientBalance {
+                required: amount,
+                remaining: self.xrd_balance,
+            })
+        } else {
+            self.xrd_balance -= amount;
+            Ok(())
+        }
+    }
+
+    fn consume_finalization_internal(&mut self, cost_units: u32) -> Result<(), FeeReserveError> {
+        self.check_finalization_cost_unit_limit(cost_units)?;
+        self.deduct_cost_units(self.effective_finalization_cost_unit_price, cost_units)?;
+        self.finalization_cost_units_committed += cost_units;
+        Ok(())
+    }
+"""),
+]
